@@ -1,5 +1,5 @@
 #!/bin/bash
-# usage: tools/intake_prop.sh <Cxx> [also-props]   -- intake candidates 1,2 of round 3 as <Cxx>-C, <Cxx>-D
-P=$1; ALSO=$2
-python3 /verif/tools/intake.py /tmp/sa3_out/$P 1 $P C ${ALSO:+--also $ALSO} > /verif/.work/intake_$P-C.log 2>&1
-python3 /verif/tools/intake.py /tmp/sa3_out/$P 2 $P D ${ALSO:+--also $ALSO} > /verif/.work/intake_$P-D.log 2>&1
+# usage: tools/intake_prop.sh <Cxx> [srcroot=/tmp/sa3_out] [L1=C] [L2=D]   -- intake candidates 1,2 as <Cxx>-<L1>, <Cxx>-<L2>
+P=$1; SRC=${2:-/tmp/sa3_out}; L1=${3:-C}; L2=${4:-D}
+python3 /verif/tools/intake.py $SRC/$P 1 $P $L1 > /verif/.work/intake_$P-$L1.log 2>&1
+python3 /verif/tools/intake.py $SRC/$P 2 $P $L2 > /verif/.work/intake_$P-$L2.log 2>&1
